@@ -509,6 +509,70 @@ func subRawPeer(args []string) {
 		if !gone {
 			fmt.Println("BAD the link has ended and its transport reads have returned, yet 2 s later its remote is still enumerated: no disconnect notification was given (the read loops hang in the teardown of the pending-call table)")
 		}
+	case "dup-responses-then-read-failure":
+		// four calls of ours stay unanswered; the peer (or a retransmitting relay) answers 300 further calls 4 to 15 times
+		// each; then the transport reads fail while the link's context lives on: Link returns, and the four calls in
+		// flight — and a call made afterwards — return an error. (Surplus publishers must not keep anything that the
+		// teardown of the pending-call table needs.)
+		const victims = 4
+		vres := make(chan error, victims)
+		for i := 0; i < victims; i++ {
+			go func() { _, err := rem.Get(context.Background()); vres <- err }()
+		}
+		for i := 0; i < victims; i++ {
+			if _, ok := nextReq(); !ok {
+				fmt.Println("BAD no request written")
+				return
+			}
+		}
+		for i := 0; i < 300; i++ {
+			done := make(chan error, 1)
+			go func() { _, err := rem.Ping(context.Background()); done <- err }()
+			if id, ok := nextReq(); ok {
+				frame := fmt.Sprintf(`{"call":%q,"value":"pong","err":""}`, id)
+				for k := 0; k < 4+i%12; k++ {
+					inRes.Put([]byte(frame))
+				}
+			}
+			select {
+			case <-done:
+			case <-time.After(300 * time.Millisecond):
+				fmt.Println("BAD a call whose response arrived several times did not return (or a later call is stuck behind the surplus responses)")
+				i = 300
+			}
+		}
+		for _, q := range []*Queue{in, inRes} {
+			q.Close(errors.New("peer gone"))
+		}
+		select {
+		case err := <-linkErr:
+			if err == nil {
+				fmt.Println("BAD Link returned nil after its transport reads failed")
+			}
+		case <-time.After(2 * time.Second):
+			fmt.Println("BAD Link did not return after its transport reads failed")
+		}
+		for i := 0; i < victims; i++ {
+			select {
+			case err := <-vres:
+				if err == nil {
+					fmt.Println("BAD a call in flight returned a nil error after the link ended")
+				}
+			case <-time.After(2 * time.Second):
+				fmt.Printf("BAD %d of %d calls in flight still hang 2 s after the link ended (duplicated responses for OTHER calls had arrived before)\n", victims-i, victims)
+				i = victims
+			}
+		}
+		late := make(chan error, 1)
+		go func() { _, err := rem.Ping(context.Background()); late <- err }()
+		select {
+		case err := <-late:
+			if err == nil {
+				fmt.Println("BAD a call made after the link ended returned a nil error")
+			}
+		case <-time.After(2 * time.Second):
+			fmt.Println("BAD a call made after the link ended (duplicated responses had arrived before) hangs instead of failing")
+		}
 	case "missing-args-after-valid":
 		// a valid request, then (a) a request WITHOUT an args member for a one-parameter method, (b) on a fresh pair of
 		// frames: a frame whose decode fails midway (`args` is a string) right behind a valid request. A method runs only
@@ -558,7 +622,7 @@ func subRawPeer(args []string) {
 // runRawPeer runs the scenarios relevant to prop in child processes.
 func runRawPeer(rep *Report, prop string) {
 	rel := map[string][]string{
-		"C05": {"dup-responses", "bad-closure-id-spawned", "many-links-new-names", "stream-both-members-after-end"},
+		"C05": {"dup-responses", "bad-closure-id-spawned", "many-links-new-names", "stream-both-members-after-end", "dup-responses-then-read-failure"},
 		"C15": {"dup-responses", "nil-hooks-precancelled", "dup-responses-then-teardown"},
 		"C14": {"nil-hooks-precancelled", "dup-responses-then-teardown"},
 		"C09": {"bad-response-value", "value-for-error-only", "pipelined-big-args"},
@@ -566,7 +630,7 @@ func runRawPeer(rep *Report, prop string) {
 		"C06": {"nil-hooks-precancelled", "bad-response-value", "bad-closure-id", "bad-closure-id-spawned", "pipelined-big-args", "many-links-new-names", "missing-args-after-valid", "stream-both-members-after-end"},
 		"C16": {"bad-closure-id", "error-response-write-fails", "bad-response-while-closure-runs", "bad-call-id-error-response"},
 		"C17": {"bad-closure-id", "value-for-error-only"},
-		"C03": {"error-response-write-fails", "bad-response-while-closure-runs", "bad-call-id-error-response"},
+		"C03": {"error-response-write-fails", "bad-response-while-closure-runs", "bad-call-id-error-response", "dup-responses-then-read-failure", "dup-responses-then-read-failure", "dup-responses-then-read-failure"}, // (a race: three attempts)
 		"C13": {"two-links-dup-answers"},
 		"C12": {"dup-responses"},
 		"C19": {"dup-responses"},
